@@ -1,3 +1,12 @@
--- This module serves as the root of the `EEM` library.
--- Import modules here that should be built as part of the library.
-import EEM.Basic
+-- Root of the `EEM` library: everything `lake build` should check.
+import EEM.Carrier
+import EEM.Proto
+import EEM.Real
+import EEM.Gen.DailyCurve
+import EEM.Gen.SafeDivide
+import EEM.Model.DailyCurve
+import EEM.Spec.Curve
+import EEM.Lemmas.Curve
+import EEM.Bridge.Curve
+import EEM.Props.C11
+import EEM.Findings.C11
